@@ -4,6 +4,7 @@ import (
 	"fmt"
 	"go/token"
 	"go/types"
+	"strings"
 
 	"golang.org/x/tools/go/ssa"
 )
@@ -65,11 +66,14 @@ func (q PathQuery) evalBool(v ssa.Value, n *pnode, depth int) (val, known bool) 
 				return (r == cb) == (x.Op == token.EQL), k
 			}
 			if IsNilConst(x.Y) && len(q.NonNil) > 0 {
+				if q.NonNil[x.X] {
+					return x.Op == token.NEQ, true
+				}
 				if rv := q.resolvePhi(x.X, n, 0); rv != nil {
 					if IsNilConst(rv) {
 						return x.Op == token.EQL, true
 					}
-					if q.NonNil[rv] {
+					if q.nonNilValue(rv, 0) {
 						return x.Op == token.NEQ, true
 					}
 				}
@@ -125,6 +129,32 @@ func (q PathQuery) resolvePhiAt(v ssa.Value, n *pnode, depth int) (ssa.Value, *p
 func (q PathQuery) resolvePhi(v ssa.Value, n *pnode, depth int) ssa.Value {
 	r, _ := q.resolvePhiAt(v, n, depth)
 	return r
+}
+
+// nonNilValue: v is assumed non-nil, or is an error built from such a value
+// (wrap) or freshly constructed.
+func (q PathQuery) nonNilValue(v ssa.Value, d int) bool {
+	if v == nil || d > 4 {
+		return false
+	}
+	if q.NonNil[v] {
+		return true
+	}
+	if c, ok := v.(*ssa.Call); ok {
+		n := Callee(c)
+		switch {
+		case strings.HasSuffix(n, "errors.New") || strings.HasSuffix(n, "errors.Errorf") || n == "fmt.Errorf":
+			return true
+		case strings.Contains(n, "errors.Wrap") || strings.Contains(n, "errors.WithMessage") || strings.Contains(n, "errors.WithStack"):
+			return len(c.Call.Args) > 0 && q.nonNilValue(c.Call.Args[0], d+1)
+		}
+	}
+	if u, ok := v.(*ssa.UnOp); ok {
+		if _, isG := u.X.(*ssa.Global); isG {
+			return true // a sentinel
+		}
+	}
+	return false
 }
 
 // evalInt evaluates small integer expressions along the path: constants,
